@@ -69,6 +69,10 @@ type Model struct {
 	Run      *ssa.Function
 	Fetch    *ssa.Function
 	Dump     *ssa.Function
+	HashFn   *ssa.Function // the context key function (hashContext)
+	DelFn    *ssa.Function // the recursive context release (deleteContext)
+	CtxRoles []string      // the fields of the context struct by role: ip, m, parent, children
+	tabs     map[*ssa.Global]*absint.Cell
 	Header   *ssa.BasicBlock
 	Body     *ssa.BasicBlock
 	OpConsts map[string]int64
@@ -85,6 +89,8 @@ type Model struct {
 
 func shortFn(fn *ssa.Function) string {
 	s := fn.String()
+	// a method expression or method value is the method it wraps
+	s = strings.TrimSuffix(strings.TrimSuffix(s, "$thunk"), "$bound")
 	if i := strings.Index(s, "["); i > 0 && strings.HasSuffix(s, "]") && !strings.HasPrefix(s, "(") {
 		s = s[:i]
 	}
@@ -197,6 +203,10 @@ func Extract(p *load.Program, s *oblig.Set) *Model {
 			m.VarOf[ph.Comment] = ph
 		}
 	}
+	// the loop variables by what they are, when they are not called what the
+	// reference tree calls them: the context pointer, the memory, the temp
+	// register (a value), the instruction pointer (the int that indexes the code)
+	m.resolveLoopVars()
 	for _, n := range []string{"ctxp", "m", "ip", "tmp"} {
 		if m.VarOf[n] == nil {
 			s.Unk("ANCHOR", "vm loop variable "+n, p.Pos(best.Pos()), "loop carried variable not found")
@@ -209,12 +219,21 @@ func Extract(p *load.Program, s *oblig.Set) *Model {
 		s.Unk("ANCHOR", "vm.fetch / vm.dumpStack", "-", "methods not found")
 		return nil
 	}
-	ctxObj := sp.Pkg.Scope().Lookup("context")
-	if ctxObj == nil {
-		s.Unk("ANCHOR", "vm.context", "-", "type not found")
+	// the context type is what the context pointer points to
+	if pt, ok := m.VarOf["ctxp"].Type().Underlying().(*types.Pointer); ok {
+		if st, ok := pt.Elem().Underlying().(*types.Struct); ok {
+			m.CtxT = st
+		}
+	}
+	if m.CtxT == nil {
+		s.Unk("ANCHOR", "vm.context", "-", "the type of the context pointer is not a struct")
 		return nil
 	}
-	m.CtxT = ctxObj.Type().Underlying().(*types.Struct)
+	if msg := m.resolveCtxRoles(); msg != "" {
+		s.Unk("ANCHOR", "vm.context fields", "-", msg)
+		return nil
+	}
+	m.resolveHelpers(sp)
 
 	names := load.SortedKeys(m.OpConsts)
 	total := 0
@@ -251,6 +270,152 @@ func countOpCmps(fn *ssa.Function) int {
 	return len(seen)
 }
 
+// resolveLoopVars fills VarOf by type for loop variables that carry other names.
+func (m *Model) resolveLoopVars() {
+	var ints []*ssa.Phi
+	for _, ins := range m.Header.Instrs {
+		ph, ok := ins.(*ssa.Phi)
+		if !ok {
+			continue
+		}
+		t := ph.Type()
+		switch {
+		case isPtrToStructIn(t, "/vm"):
+			if m.VarOf["ctxp"] == nil {
+				m.VarOf["ctxp"] = ph
+			}
+		case strings.HasSuffix(t.String(), "memory.Type") && strings.HasPrefix(t.String(), "*"):
+			if m.VarOf["m"] == nil {
+				m.VarOf["m"] = ph
+			}
+		case strings.HasSuffix(t.String(), "types/value.Type"):
+			if m.VarOf["tmp"] == nil {
+				m.VarOf["tmp"] = ph
+			}
+		default:
+			if b, ok := t.Underlying().(*types.Basic); ok && b.Kind() == types.Int {
+				ints = append(ints, ph)
+			}
+		}
+	}
+	if m.VarOf["ip"] == nil {
+		for _, ph := range ints {
+			for _, ref := range *ph.Referrers() {
+				if ia, ok := ref.(*ssa.IndexAddr); ok && ia.Index == ssa.Value(ph) {
+					m.VarOf["ip"] = ph
+				}
+			}
+		}
+		if m.VarOf["ip"] == nil && len(ints) == 1 {
+			m.VarOf["ip"] = ints[0]
+		}
+	}
+}
+
+func isPtrToStructIn(t types.Type, pkgSuffix string) bool {
+	pt, ok := t.Underlying().(*types.Pointer)
+	if !ok {
+		return false
+	}
+	n, ok := pt.Elem().(*types.Named)
+	if !ok || n.Obj().Pkg() == nil || !strings.HasSuffix(n.Obj().Pkg().Path(), pkgSuffix) {
+		return false
+	}
+	_, isStruct := n.Underlying().(*types.Struct)
+	return isStruct
+}
+
+// resolveCtxRoles names the fields of the context by what they hold: the saved
+// instruction pointer (int), the memory (*memory.Type), the parent (a pointer
+// to the same struct), the child table (the remaining field).
+func (m *Model) resolveCtxRoles() string {
+	ctxPtrT := m.VarOf["ctxp"].Type()
+	m.CtxRoles = make([]string, m.CtxT.NumFields())
+	seen := map[string]int{}
+	for i := 0; i < m.CtxT.NumFields(); i++ {
+		t := m.CtxT.Field(i).Type()
+		role := ""
+		switch {
+		case types.Identical(t, ctxPtrT):
+			role = "parent"
+		case strings.HasSuffix(t.String(), "memory.Type") && strings.HasPrefix(t.String(), "*"):
+			role = "m"
+		default:
+			if b, ok := t.Underlying().(*types.Basic); ok && b.Kind() == types.Int {
+				role = "ip"
+			} else {
+				role = "children"
+			}
+		}
+		seen[role]++
+		m.CtxRoles[i] = role
+	}
+	for _, r := range []string{"ip", "m", "parent", "children"} {
+		if seen[r] != 1 {
+			return fmt.Sprintf("expected one field each for the saved ip (int), the memory, the parent and the child table; found %v", seen)
+		}
+	}
+	return ""
+}
+
+// resolveHelpers finds the two helpers of the run loop by their signatures:
+// the context key (memory and id in, an unsigned key out) and the recursive
+// release of a context (a context and the free list in).
+func (m *Model) resolveHelpers(sp *ssa.Package) {
+	ctxPtrT := m.VarOf["ctxp"].Type()
+	for _, mem := range sp.Members {
+		fn, ok := mem.(*ssa.Function)
+		if !ok || fn.Blocks == nil || fn.Signature.Recv() != nil {
+			continue
+		}
+		sig := fn.Signature
+		if sig.Results().Len() == 1 && sig.Params().Len() == 2 {
+			if b, ok := sig.Results().At(0).Type().Underlying().(*types.Basic); ok && b.Kind() == types.Uint64 {
+				hasMem, hasInt := false, false
+				for i := 0; i < 2; i++ {
+					pt := sig.Params().At(i).Type()
+					if strings.HasSuffix(pt.String(), "memory.Type") {
+						hasMem = true
+					}
+					if pb, ok := pt.Underlying().(*types.Basic); ok && pb.Kind() == types.Int {
+						hasInt = true
+					}
+				}
+				if hasMem && hasInt && (m.HashFn == nil || fn.Name() == "hashContext") {
+					m.HashFn = fn
+				}
+			}
+		}
+		if sig.Params().Len() == 2 && types.Identical(sig.Params().At(0).Type(), ctxPtrT) && callsItself(fn) {
+			if m.DelFn == nil || fn.Name() == "deleteContext" {
+				m.DelFn = fn
+			}
+		}
+	}
+}
+
+func callsItself(fn *ssa.Function) bool {
+	var scan func(f *ssa.Function) bool
+	scan = func(f *ssa.Function) bool {
+		for _, b := range f.Blocks {
+			for _, ins := range b.Instrs {
+				if ci, ok := ins.(ssa.CallInstruction); ok {
+					if c := ci.Common().StaticCallee(); c == fn {
+						return true
+					}
+				}
+				if mc, ok := ins.(*ssa.MakeClosure); ok {
+					if cf, ok := mc.Fn.(*ssa.Function); ok && scan(cf) {
+						return true
+					}
+				}
+			}
+		}
+		return false
+	}
+	return scan(fn)
+}
+
 func fieldIx(st *types.Struct, name string) int {
 	for i := 0; i < st.NumFields(); i++ {
 		if st.Field(i).Name() == name {
@@ -273,11 +438,39 @@ func (m *Model) runOpcode(name string, op int64) []*Path {
 	return out
 }
 
+// tables: the package variables of package vm that the initialiser fills with
+// a map, array, slice or struct of constants and functions.
+func (m *Model) tables() map[*ssa.Global]*absint.Cell {
+	if m.tabs != nil {
+		return m.tabs
+	}
+	m.tabs = map[*ssa.Global]*absint.Cell{}
+	gl, end := absint.InitGlobals(m.P.SSA, m.Run.Pkg)
+	if end != nil {
+		return m.tabs
+	}
+	for g, c := range gl {
+		if g.Pkg != m.Run.Pkg {
+			continue
+		}
+		switch c.V.(type) {
+		case *absint.Map, *absint.Array, *absint.Slice, *absint.Struct:
+			m.tabs[g] = c
+		}
+	}
+	return m.tabs
+}
+
 func (m *Model) onePath(name string, op int64, o *absint.Oracle) *Path {
 	p := m.P
 	path := &Path{Op: name, OpVal: op, Final: map[string]absint.Val{}, Cells: map[string]*absint.Cell{}}
 	in := absint.NewInterp(p.SSA, o)
 	in.MaxStep = 20000
+	// lookup tables of package vm (a handler driven by a table of methods) have
+	// their contents; everything else keeps its identity as a package variable
+	for g, c := range m.tables() {
+		in.Globals[g] = c
+	}
 	fn := m.Run
 	intT := types.Typ[types.Int]
 	ctxPtrT := m.VarOf["ctxp"].Type()
@@ -289,13 +482,13 @@ func (m *Model) onePath(name string, op int64, o *absint.Oracle) *Path {
 		f := append([]absint.Val(nil), st.F...)
 		for i := 0; i < m.CtxT.NumFields(); i++ {
 			fl := m.CtxT.Field(i)
-			switch fl.Name() {
+			switch m.CtxRoles[i] {
 			case "m":
 				f[i] = mval
 			case "parent":
 				f[i] = parent
 			default:
-				f[i] = absint.NewVar(tag+"."+fl.Name(), fl.Type())
+				f[i] = absint.NewVar(tag+"."+m.CtxRoles[i], fl.Type())
 			}
 		}
 		c := in.NewCell(&absint.Struct{T: ctxNamed, F: f}, tag)
@@ -430,7 +623,7 @@ func (m *Model) onePath(name string, op int64, o *absint.Oracle) *Path {
 			}
 			addEvent("call", "dumpStack", vals, nil, site)
 			return &absint.Tuple{E: []absint.Val{absint.NewVar("NIL", callee.Signature.Results().At(0).Type()), args[3]}}, true
-		case callee.Name() == "hashContext" && pkg == load.ModPath+"/vm":
+		case callee == m.HashFn:
 			return &absint.Sym{Op: "hash", Args: args, T: callee.Signature.Results().At(0).Type()}, true
 		case pkg == "log":
 			addEvent("call", sf, args[:min(1, len(args))], nil, site)
@@ -472,8 +665,8 @@ func (m *Model) onePath(name string, op int64, o *absint.Oracle) *Path {
 			addEvent("call", sf, args, r, site)
 			return r, true
 		}
-		if callee.Name() == "deleteContext" {
-			addEvent("call", sf, args, nil, site)
+		if callee == m.DelFn {
+			addEvent("call", strings.Replace(sf, callee.Name(), "deleteContext", 1), args, nil, site)
 			return nil, true
 		}
 		return nil, false
